@@ -809,19 +809,17 @@ theorem getValue_bool (cfg : Config) (k : String) (dflt : Bool) :
     simp only [Option.bind_some]
     cases svBoolean s <;> rfl
 
-theorem toPeriod_range (s : String) (p : Period) (h : toPeriod s = some p) (hn : pyFloat s ≠ some .nan) :
-    periodInRange p = true := by
+theorem toPeriod_range (s : String) (p : Period) (h : toPeriod s = some p) : periodInRange p = true := by
   unfold toPeriod at h
   split at h
-  · rename_i hf; exact absurd hf hn
   · rename_i n d hf
     split at h
-    · cases h
     · rename_i hr
       injection h with h; subst h
       simp only [periodInRange, periodBounds] at hr ⊢
       simp only [Bool.and_eq_true, decide_eq_true_eq]
       omega
+    · cases h
   · cases h
 
 theorem optAll_spec {α} : ∀ (l : List (Option α)) (r : List α), optAll l = some r →
@@ -965,5 +963,204 @@ theorem convertOptions_sync_nodup (dflt : List String) (cfg : Config) (hd : dflt
     split
     · exact dedup_nodup _
     · exact hd
+
+/-! ### the lookup of the model is one of the candidates of the specification -/
+
+def lenOf {α} (d : Doc) (name : String) (kv : String × α) : Option (Nat × α) :=
+  match matchRes d kv.1 name with | .len n => some (n, kv.2) | _ => none
+
+theorem matching_eq_filterMap {α} (d : Doc) (name : String) : ∀ (pats : List (String × α)) (ms : List (Nat × α)),
+    matching d name pats = .ok ms → ms = pats.filterMap (lenOf d name) := by
+  intro pats
+  induction pats with
+  | nil => intro ms h; simp only [matching] at h; injection h with h; subst h; rfl
+  | cons kv t ih =>
+    intro ms h
+    obtain ⟨p0, v0⟩ := kv
+    simp only [matching] at h
+    split at h
+    · cases h
+    · rename_i hno
+      rw [ih ms h]
+      simp [lenOf, hno]
+    · rename_i n0 hlen
+      split at h
+      · rename_i r hr
+        injection h with h; subst h
+        rw [ih r hr]
+        simp [lenOf, hlen]
+      · cases h
+
+theorem foldl_max_eq {α} (M : Nat) : ∀ (l : List (Nat × α)) (init : Nat), (∀ x ∈ l, x.1 ≤ M) → init ≤ M →
+    (init = M ∨ ∃ x ∈ l, x.1 = M) → l.foldl (fun b x => max b x.1) init = M := by
+  intro l
+  induction l with
+  | nil =>
+    intro init _ _ h
+    rcases h with h | ⟨x, hx, _⟩
+    · exact h
+    · simp at hx
+  | cons y t ih =>
+    intro init hall hinit h
+    simp only [List.foldl_cons]
+    have hy : y.1 ≤ M := hall y (by simp)
+    apply ih (max init y.1) (fun x hx => hall x (by simp [hx])) (by omega)
+    rcases h with h | ⟨x, hx, hxM⟩
+    · left; omega
+    · simp only [List.mem_cons] at hx
+      rcases hx with rfl | hx
+      · left; omega
+      · right; exact ⟨x, hx, hxM⟩
+
+theorem longestMatches_eq {α} (d : Doc) (name : String) (pats : List (String × α)) :
+    longestMatches d name pats =
+      ((pats.filterMap (lenOf d name)).filter
+        (fun x => x.1 == (pats.filterMap (lenOf d name)).foldl (fun b x => max b x.1) 0)).map (·.2) := rfl
+
+/-- `get_best_pattern` picks one of the longest matches; it picks nothing only when nothing matches -/
+theorem bestPattern_mem_longest {α} (d : Doc) (name : String) (pats : List (String × α)) (r : Option α)
+    (h : bestPattern d name pats = .ok r) :
+    match r with
+    | some v => v ∈ longestMatches d name pats
+    | none => longestMatches d name pats = [] := by
+  unfold bestPattern at h
+  split at h
+  · rename_i ms hms
+    injection h with h
+    have hfm := matching_eq_filterMap d name pats ms hms
+    cases hb : firstMax ms with
+    | none =>
+      rw [hb] at h
+      simp only [Option.map_none] at h
+      subst h
+      have := firstMax_none ms hb
+      simp only
+      rw [longestMatches_eq, ← hfm, this]
+      rfl
+    | some b =>
+      rw [hb] at h
+      simp only [Option.map_some] at h
+      subst h
+      obtain ⟨hm, hmax⟩ := firstMax_spec ms b hb
+      simp only
+      rw [longestMatches_eq, ← hfm]
+      have hbest : ms.foldl (fun acc x => max acc x.1) 0 = b.1 :=
+        foldl_max_eq b.1 ms 0 hmax (Nat.zero_le _) (Or.inr ⟨b, hm, rfl⟩)
+      rw [hbest]
+      simp only [List.mem_map, List.mem_filter]
+      exact ⟨b, ⟨hm, by simp⟩, rfl⟩
+  · cases h
+
+theorem getApplicationElement_mem (d : Doc) (app : String) (r : Option AppElt)
+    (h : getApplicationElement d app = .ok r) : r ∈ appCandidates d app := by
+  unfold getApplicationElement at h
+  unfold appCandidates
+  split at h
+  · rename_i a ha
+    injection h with h; subst h
+    simp [ha]
+  · rename_i hnone
+    simp only [hnone]
+    have := bestPattern_mem_longest d app _ r h
+    cases r with
+    | none => simp only at this; simp [this]
+    | some v =>
+      simp only at this
+      cases hl : longestMatches d app (patternDict (·.elt.pattern) d.apps) with
+      | nil => rw [hl] at this; simp at this
+      | cons x t => rw [hl] at this; simp only [List.mem_map]; exact ⟨v, this, rfl⟩
+
+theorem getProgramIn_mem (d : Doc) (a : AppElt) (proc : String) (c : Option Elt × Bool)
+    (h : getProgramIn d a proc = .ok c) : c ∈ progCandidatesIn d a proc := by
+  unfold getProgramIn at h
+  unfold progCandidatesIn
+  split at h
+  · rename_i p hp
+    injection h with h; subst h
+    simp [hp]
+  · rename_i hnone
+    simp only [hnone]
+    split at h
+    · rename_i p hb
+      injection h with h; subst h
+      have := bestPattern_mem_longest d proc _ (some p) hb
+      simp only at this
+      cases hl : longestMatches d proc (patternDict (·.pattern) a.programs) with
+      | nil => rw [hl] at this; simp at this
+      | cons x t => rw [hl] at this; simp only [List.mem_map]; exact ⟨p, this, rfl⟩
+    · rename_i hb
+      injection h with h; subst h
+      have := bestPattern_mem_longest d proc _ none hb
+      simp only at this
+      simp [this]
+    · cases h
+
+theorem getProgramElement_mem (d : Doc) (app proc : String) (c : Option Elt × Bool)
+    (h : getProgramElement d app proc = .ok c) : c ∈ progCandidates d app proc := by
+  unfold getProgramElement at h
+  unfold progCandidates
+  split at h
+  · cases h
+  · rename_i hget
+    injection h with h; subst h
+    simp only [List.mem_flatMap]
+    exact ⟨none, getApplicationElement_mem d app none hget, by simp⟩
+  · rename_i a hget
+    simp only [List.mem_flatMap]
+    exact ⟨some a, getApplicationElement_mem d app (some a) hget, getProgramIn_mem d a proc c h⟩
+
+/-! ### helpers moved out of the property file -/
+
+theorem fieldOf_start_nonneg (ch : List Elt) (x : Int) (hx : 0 ≤ x) : 0 ≤ fieldOf pStart ch x := by
+  rcases fieldOf_mem pStart ch x with h | ⟨e, _, h⟩
+  · rw [h]; exact hx
+  · exact parseSeq_nonneg _ _ h
+
+theorem fieldOf_stop_nonneg_or_dflt (ch : List Elt) (x : Int) : fieldOf pStop ch x = x ∨ 0 ≤ fieldOf pStop ch x := by
+  rcases fieldOf_mem pStop ch x with h | ⟨e, _, h⟩
+  · left; exact h
+  · right; exact parseSeq_nonneg _ _ h
+
+theorem substFirst_of_not_mem (name : String) (vals : List String) : ∀ (ids : List String), name ∉ ids →
+    substFirst name vals ids = ids := by
+  intro ids
+  induction ids with
+  | nil => intro _; rfl
+  | cons h t ih =>
+    intro hn
+    simp only [List.mem_cons, not_or] at hn
+    have : (h == name) = false := by simpa using fun hc => hn.1 hc.symm
+    simp only [substFirst, this, Bool.false_eq_true, if_false, ih hn.2]
+
+theorem substFirst_split (name : String) (vals : List String) : ∀ (pre post : List String), name ∉ pre →
+    substFirst name vals (pre ++ name :: post) = pre ++ vals ++ post := by
+  intro pre
+  induction pre with
+  | nil => intro post _; simp [substFirst]
+  | cons h t ih =>
+    intro post hn
+    simp only [List.mem_cons, not_or] at hn
+    have : (h == name) = false := by simpa using fun hc => hn.1 hc.symm
+    simp only [List.cons_append, substFirst, this, Bool.false_eq_true, if_false, ih post hn.2, List.append_assoc]
+
+theorem procRules_ext (a b : ProcRules) (h1 : a.ids = b.ids) (h2 : a.startSeq = b.startSeq) (h3 : a.stopSeq = b.stopSeq)
+    (h4 : a.required = b.required) (h5 : a.waitExit = b.waitExit) (h6 : a.load = b.load) (h7 : a.sfs = b.sfs)
+    (h8 : a.rfs = b.rfs) : a = b := by
+  cases a; cases b; simp_all
+
+/-- no element at all: the dependencies are still checked on the inherited rules, as the specification says -/
+theorem resolution_meets_spec_none (d : Doc) (isPattern : Bool) (r0 : ProcRules)
+    (h1 : r0.ids.atIds = []) (h2 : r0.ids.hashIds = []) :
+    checkDependencies isPattern r0 = specProc d (none, isPattern) r0 := by
+  apply procRules_ext
+  · rw [checkDependencies_ids]
+    exact ids_meet_spec d isPattern [] r0.ids h1 h2 rfl
+  · rw [checkDependencies_startSeq]; rfl
+  · rw [checkDependencies_stopSeq]; rfl
+  · rw [checkDependencies_required]; rfl
+  · rw [checkDependencies_waitExit]; rfl
+  · rw [checkDependencies_load]; rfl
+  · rw [checkDependencies_sfs]; rfl
+  · rw [checkDependencies_rfs]; rfl
 
 end Supv.Rules
